@@ -197,9 +197,204 @@ pub fn scenario(seed: u64, rep: &mut Report) {
 }
 
 pub fn run_r0(p: &Params, rep: &mut Report) {
-    let n = p.budget(160, 12_000);
+    let n = p.budget(480, 24_000);
     for i in 0..n {
         let seed = p.shard_seed(0x15_000 + i);
         crate::util::guarded(rep, seed, |rep| scenario(seed, rep));
     }
+}
+
+/* ------------------------------------------------------------------------------------------ */
+/* R1 half: the real handler on the virtual wire                                               */
+
+use crate::rig::engine::{Engine, Ev, OutClass};
+use crate::rig::r1::{runtime, RigConfig};
+use discv5::verif::HandlerOut;
+
+const TTL: Duration = Duration::from_millis(80);
+
+/// Expiry: a session idle for longer than the timeout must not be used in either direction.
+pub fn scenario_expiry(seed: u64, rep: &mut Report) {
+    let rt = runtime(seed);
+    rt.block_on(async {
+        let mut rng = Rng::new(seed ^ 0x15E);
+        let cfg = RigConfig { session_timeout: TTL, session_cache_capacity: 100, ..Default::default() };
+        let mut e = Engine::new(seed, cfg, 1, None).await;
+        e.wru_delays = vec![None]; // never answer who-are-you queries: the cache is not disturbed by probes
+        e.app_responds = true;
+        // establish (peer-initiated needs a who-are-you answer: do it once by hand)
+        e.wru_delays = vec![Some(Duration::ZERO)];
+        e.peer_request(0, 1);
+        e.drain().await;
+        e.wru_delays = vec![None];
+        let vid = e.victim_id;
+        if e.peers[0].sim.latest(&vid).is_none() {
+            rep.inconclusive(format!("expiry scenario {seed}: session not established"));
+            return;
+        }
+        let old_gens = e.peers[0].mon_keys.len();
+        // optional refreshing traffic after a short pause
+        let mut last_use = Instant::now();
+        let refresh = rng.below(3);
+        if refresh > 0 {
+            std::thread::sleep(Duration::from_millis(25));
+            if refresh == 1 {
+                e.peer_request(0, 5); // inbound traffic
+            } else {
+                e.submit(0, 1, true); // outbound traffic
+            }
+            e.drain().await;
+            last_use = Instant::now();
+        }
+        let idle = *rng.pick(&[10u64, 30, 130, 200]);
+        std::thread::sleep(Duration::from_millis(idle));
+        // ---- probe ----
+        e.peers[0].behaviour.challenge_unknown = false;
+        e.peers[0].behaviour.respond = false;
+        let mark = e.trace.len();
+        let outbound = rng.bool();
+        let idle_lo = last_use.elapsed(); // at least this long since the last use
+        if outbound {
+            e.submit(0, 1, true);
+        } else {
+            e.peer_request(0, 1);
+        }
+        e.drain().await;
+        let idle_hi = last_use.elapsed();
+        rep.evaluations += 1;
+        let margin = Duration::from_millis(12);
+        let definitely_expired = idle_lo > TTL + margin;
+        let definitely_alive = idle_hi + margin < TTL;
+        let used = e.trace[mark..].iter().any(|t| match &t.ev {
+            Ev::Sent { class: OutClass::Message { gen, msg: Some(m), .. }, .. } => outbound && *gen < old_gens && m.is_request(),
+            Ev::Out(HandlerOut::Request(..)) => !outbound,
+            _ => false,
+        });
+        let refresh_name = ["none", "inbound", "outbound"][refresh as usize];
+        let w = json!({"scenario_seed": seed.to_string(), "kind": "expiry", "direction": if outbound { "outbound request" } else { "inbound message under the old keys" }, "refresh": refresh_name, "idle_ms": [idle_lo.as_millis() as u64, idle_hi.as_millis() as u64], "ttl_ms": 80, "trace": e.dump_trace(12)});
+        if definitely_expired {
+            rep.count("probes_after_expiry");
+            if used {
+                rep.violation("C15:expired-session-used", format!("a session idle for {:?} (timeout 80 ms) was used for an {}", idle_lo, if outbound { "outbound request" } else { "inbound message" }), w);
+            }
+        } else if definitely_alive {
+            rep.count("probes_before_expiry");
+            if used {
+                rep.count("live_session_used");
+            }
+        } else {
+            rep.count("uncertain_access");
+        }
+        rep.fingerprint(&("expiry", outbound, refresh, idle, definitely_expired));
+    });
+}
+
+/// Capacity: never more than `capacity` sessions; the least recently used one is dropped.
+pub fn scenario_capacity(seed: u64, rep: &mut Report) {
+    let rt = runtime(seed);
+    rt.block_on(async {
+        let mut rng = Rng::new(seed ^ 0x15C);
+        let capacity = 1 + rng.usize(4);
+        let npeers = capacity + 1 + rng.usize(3);
+        let cfg = RigConfig { session_timeout: Duration::from_secs(3600), session_cache_capacity: capacity, ..Default::default() };
+        let mut e = Engine::new(seed, cfg, npeers, None).await;
+        e.wru_delays = vec![Some(Duration::ZERO)];
+        // model: least recently used first
+        let mut lru: Vec<usize> = Vec::new();
+        let mut log: Vec<Value> = Vec::new();
+        let nsteps = npeers + rng.usize(12);
+        let mut order: Vec<usize> = (0..npeers).collect();
+        rng.shuffle(&mut order);
+        let vid = e.victim_id;
+        for step in 0..nsteps {
+            let i = if step < npeers { order[step] } else { rng.usize(npeers) };
+            let has_session = lru.contains(&i);
+            if has_session && rng.bool() {
+                // use the session: traffic in either direction
+                if rng.bool() {
+                    e.submit(i, 1, true);
+                } else {
+                    e.peer_request(i, 5);
+                }
+                e.drain().await;
+                lru.retain(|x| *x != i);
+                lru.push(i);
+                log.push(json!({"step": step, "ev": "use", "peer": i}));
+            } else {
+                // (re-)establish from the peer's side with fresh keys
+                e.peer_lose_session(i);
+                e.peer_request(i, 1);
+                e.drain().await;
+                if e.peers[i].sim.latest(&vid).is_some() {
+                    lru.retain(|x| *x != i);
+                    lru.push(i);
+                    if lru.len() > capacity {
+                        let victim = lru.remove(0);
+                        log.push(json!({"step": step, "ev": "establish", "peer": i, "model_evicts": victim}));
+                        // the evicted peer's keys are dead on the victim's side
+                    } else {
+                        log.push(json!({"step": step, "ev": "establish", "peer": i}));
+                    }
+                }
+            }
+            let sessions = discv5::Discv5::metrics().active_sessions;
+            if sessions > capacity {
+                rep.violation("C15:cache-over-capacity", format!("{sessions} sessions held, capacity {capacity}"), json!({"scenario_seed": seed.to_string(), "kind": "capacity", "log": log}));
+            }
+        }
+        // ---- read the survivor set: an inbound probe under the latest keys of every peer ----
+        e.wru_delays = vec![None];
+        e.app_responds = false;
+        let mut alive: Vec<usize> = Vec::new();
+        // probe in LRU order so that the reads themselves do not change who survives
+        for i in 0..npeers {
+            if e.peers[i].sim.latest(&vid).is_none() {
+                continue;
+            }
+            let mark = e.trace.len();
+            let id = e.peer_request(i, 1);
+            e.drain().await;
+            if e.trace[mark..].iter().any(|t| matches!(&t.ev, Ev::Out(HandlerOut::Request(_, r)) if r.id.0 == id)) {
+                alive.push(i);
+            }
+        }
+        rep.evaluations += 1;
+        rep.count("capacity_scenarios");
+        let mut want = lru.clone();
+        want.sort();
+        alive.sort();
+        if alive != want {
+            let sig = if alive.len() > capacity { "C15:cache-over-capacity" } else { "C15:evicted-not-lru" };
+            rep.violation(sig, format!("sessions alive with peers {alive:?}, the {capacity} most recently used are {want:?}"), json!({"scenario_seed": seed.to_string(), "kind": "capacity", "capacity": capacity, "log": log}));
+        }
+        rep.fingerprint(&("capacity", capacity, npeers, nsteps.min(20)));
+        if rep.want_sample() {
+            rep.sample(json!({"scenario_seed": seed.to_string(), "kind": "capacity", "capacity": capacity, "peers": npeers, "log": log.iter().take(12).cloned().collect::<Vec<_>>(), "survivors": alive}));
+        }
+    });
+}
+
+pub fn run(p: &Params) -> Report {
+    let mut rep = Report::new("C15");
+    if let Some(r) = &p.replay {
+        let seed: u64 = r["replay"]["scenario_seed"].as_str().unwrap().parse().unwrap();
+        match r["replay"]["kind"].as_str() {
+            Some("expiry") => scenario_expiry(seed, &mut rep),
+            Some("capacity") => scenario_capacity(seed, &mut rep),
+            _ => scenario(seed, &mut rep),
+        }
+        return rep;
+    }
+    run_r0(p, &mut rep);
+    let n = p.budget(480, 24_000);
+    for i in 0..n {
+        let seed = p.shard_seed(0x15E_000 + i);
+        crate::util::guarded(&mut rep, seed, |rep| scenario_expiry(seed, rep));
+    }
+    let m = p.budget(1_600, 100_000);
+    for i in 0..m {
+        let seed = p.shard_seed(0x15C_000 + i);
+        crate::util::guarded(&mut rep, seed, |rep| scenario_capacity(seed, rep));
+    }
+    rep
 }
